@@ -165,6 +165,66 @@ theorem convert_ignores_durations (fl fl' : Flags) (ext : String) (a b : Option 
     run "convert" fl ext a b = run "convert" fl' ext a b := by
   unfold run plan; simp only [h1, h2]
 
+theorem write_ne_refused (ext : String) (l : List Item) : write ext l ≠ .refused := by
+  unfold write
+  cases writeCodec (lowerExt ext) with
+  | none => simp
+  | some c => by_cases h : l.isEmpty <;> simp [h]
+
+/-- **exactly when the destination stays untouched**: the tool refuses iff the validation fails, or the first input
+    does not open, or the sub-command is `merge` and the second input does not open -/
+theorem refused_iff (cmd : String) (fl : Flags) (ext : String) (a b : Option (List Item)) :
+    run cmd fl ext a b = .refused ↔
+      plan cmd fl = none ∨ a = none ∨ (plan cmd fl = some .merge ∧ b = none) := by
+  constructor
+  · intro h
+    cases hp : plan cmd fl with
+    | none => exact Or.inl rfl
+    | some op =>
+      right
+      cases a with
+      | none => exact Or.inl rfl
+      | some xs =>
+        right
+        have hio : fl.inputs ≠ 0 ∧ fl.output = true := by
+          by_cases hi : fl.inputs = 0
+          · have := C07.cli_needs_io cmd fl (Or.inl hi); rw [hp] at this; cases this
+          · by_cases ho : fl.output = true
+            · exact ⟨hi, ho⟩
+            · have := C07.cli_needs_io cmd fl (Or.inr (by simpa using ho)); rw [hp] at this; cases this
+        unfold run at h
+        simp only [hio.1, hio.2, ↓reduceIte, Bool.not_true, Bool.false_eq_true, hp] at h
+        cases op <;> simp only at h <;> try exact absurd h (write_ne_refused _ _)
+        cases b with
+        | none => exact ⟨rfl, rfl⟩
+        | some ys => exact absurd h (write_ne_refused _ _)
+  · rintro (h | h | ⟨h1, h2⟩)
+    · exact refused_of_plan_none cmd fl ext a b h
+    · subst h; exact refused_of_unreadable_first cmd fl ext b
+    · subst h2
+      unfold run
+      by_cases hi : fl.inputs = 0
+      · simp [hi]
+      by_cases ho : fl.output = true
+      · simp only [hi, ho, ↓reduceIte, Bool.not_true, Bool.false_eq_true, h1]
+        cases a <;> rfl
+      · simp [hi, ho]
+
+/-- the destination exists afterwards exactly when the tool got as far as `Subtitles.Write` -/
+theorem touched_iff (cmd : String) (fl : Flags) (ext : String) (a b : Option (List Item)) :
+    (run cmd fl ext a b).touched = true ↔ run cmd fl ext a b ≠ .refused := by
+  cases run cmd fl ext a b <;> simp [Outcome.touched]
+
+/-- exit status 0 exactly when a non-empty cue list reached a writer -/
+theorem ok_iff (cmd : String) (fl : Flags) (ext : String) (a b : Option (List Item)) :
+    (run cmd fl ext a b).ok = true ↔ ∃ c xs, run cmd fl ext a b = .wrote c xs ∧ xs ≠ [] := by
+  constructor
+  · intro h
+    cases hr : run cmd fl ext a b with
+    | wrote c xs => exact ⟨c, xs, rfl, (wrote_needs cmd fl ext a b c xs hr).2.2.1⟩
+    | _ => rw [hr] at h; simp [Outcome.ok] at h
+  · rintro ⟨c, xs, h, _⟩; rw [h]; rfl
+
 /-! non-vacuity: concrete command lines -/
 
 private def c1 : Item := { uid := 1, startAt := 0, endAt := 3 * second, lines := [["a"]], pay := 0 }
